@@ -628,6 +628,7 @@ func (s *Service) ListenAndServe(url string, options ...nats.Option) error {
 	nc, err := nats.Connect(url, opts...)
 	if err != nil {
 		s.errorf("Failed to connect to NATS server: %s", err)
+		atomic.StoreInt32(&s.state, stateStopped)
 		return err
 	}
 
@@ -668,6 +669,8 @@ func (s *Service) serve(nc Conn) error {
 	// for all the event listeners.
 	err := s.ValidateListeners()
 	if err != nil {
+		// Nothing has been started: the service can be served again
+		atomic.StoreInt32(&s.state, stateStopped)
 		return err
 	}
 
